@@ -68,7 +68,7 @@ Definition final_spaces (line : str) : str :=
   if (c_TARGET_LINE_LENGHT - 10 <? pylen line)%Z then c_SPACES_GAP_FOR_FREQUENCY
   else spaces (Z.to_nat (c_TARGET_LINE_LENGHT - pylen line)).
 
-Definition indent (n : nat) : str := concat (repeat c_SPACES_LEVEL_INDENTATION n).
+Definition indent (n : nat) : str := List.concat (repeat c_SPACES_LEVEL_INDENTATION n).
 
 Definition target_element (z : sercfg) (prop ty : str) : option str :=
   match tune_token (z_ns z) ty with
@@ -166,4 +166,4 @@ Definition render_lines (z : sercfg) (l : list shape) : option (list str) :=
   end.
 
 Definition render (z : sercfg) (l : list shape) : option str :=
-  match render_lines z l with Some ls => Some (concat ls) | None => None end.
+  match render_lines z l with Some ls => Some (List.concat ls) | None => None end.
